@@ -233,6 +233,10 @@ def truth_static(ip, v, st):
                 return True
             if p[0] == 'pack' and (fmt_size(p[1]) or 0) > 0:
                 return True
+            if p[0] == 'fix' and p[1] > 0:
+                return True
+        if all(p[0] == 'fix' and p[1] == 0 for p in v.parts):
+            return False
         if not v.parts:
             return False
         return None
@@ -636,6 +640,10 @@ def _p_len(ip, args, kwargs, st, line, node):
     if isinstance(v, Obj) and not st.heap[v.oid].open and st.heap[v.oid].kind in ('list', 'dict'):
         return [('val', Const(len(st.heap[v.oid].items)), st)]
     name = 'len(%s)' % v.desc()
+    if isinstance(v, BytesV):
+        bl, bh = bytes_len(v, st)
+        if bl == bh and bl != INF and all(p[0] in ('fix', 'lit') for p in v.parts):
+            return [('val', Const(int(bl)), st)]
     if isinstance(v, SliceV):
         lo = v.lo.value if isinstance(v.lo, Const) else None
         lo = 0 if (isinstance(v.lo, Const) and v.lo.value is None) else lo
@@ -809,6 +817,10 @@ def _p_ord(ip, args, kwargs, st, line, node):
         except Exception:
             return [('raise', Opaque('TypeError(ord)'), st)]
     nm = 'ord(%s)' % (args[0].desc() if args else '')
+    if args and isinstance(args[0], (BytesV, SliceV)):
+        bl, bh = bytes_len(args[0], st)
+        if bh < 1 or bl > 1:
+            return [('raise', Opaque('TypeError(ord() expected a character, got length %s)' % bl), st)]
     return [('val', mk_sym(st, nm, 0, 255, ('ord', list(args))), st)]
 
 
@@ -903,6 +915,8 @@ def _p_ceil(ip, args, kwargs, st, line, node):
 
 
 def _p_b2a_hex(ip, args, kwargs, st, line, node):
+    if args and bytes_len(args[0], st) == (0, 0):
+        return [('val', Const(b''), st)]
     return [('val', Opaque('b2a_hex(%s)' % ', '.join(a.desc() for a in args), 'bytes'), st)]
 
 
